@@ -6,6 +6,7 @@
 import Driver.Proto
 import Driver.Pre
 import Driver.Content
+import Driver.Format
 
 open Driver
 
@@ -13,7 +14,7 @@ def dispatch (line : String) : String :=
   match (line.splitOn " ").filter (· ≠ "") with
   | [] => "bad-op"
   | cmd :: args =>
-    let handlers : List (String → Option (P String)) := [cmdPre, cmdContent]
+    let handlers : List (String → Option (P String)) := [cmdPre, cmdContent, cmdFormat]
     match handlers.findSome? (fun h => h cmd) with
     | none => "bad-op"
     | some p => match run p args with
